@@ -759,7 +759,7 @@ func c12kills(c *Ctx, r *RNG, n int) {
 	}
 	dir, _ := os.MkdirTemp("", "c12kill")
 	defer os.RemoveAll(dir)
-	totalLines, totalAcked, nonEmpty := 0, 0, 0
+	totalLines, totalAcked, nonEmpty, tornTail := 0, 0, 0, 0
 	for k := 0; k < n; k++ {
 		path := fmt.Sprintf("%s/out%d.log", dir, k)
 		size := r.Range(16, 4096)
@@ -787,6 +787,15 @@ func c12kills(c *Ctx, r *RNG, n int) {
 		for i, ln := range lines {
 			want := fmt.Sprintf("line-%08d-%s\n", i, bytes.Repeat([]byte{'y'}, i%23))
 			if string(ln) != want {
+				// SIGKILL can interrupt the kernel in the middle of ONE write(2) (generic_perform_write checks
+				// for fatal signals between pages), so the last sink write may be torn by the OS: a proper prefix
+				// of the expected line at the very end of the file is outside the model (DESIGN: C12 partial) and
+				// is counted, not reported. A wrong or torn line anywhere else is a violation.
+				if i == len(lines)-1 && len(ln) < len(want) && want[:len(ln)] == string(ln) {
+					tornTail++
+					lines = lines[:i]
+					break
+				}
 				c12viol(c, fmt.Sprintf("file after SIGKILL is not a whole-line prefix: line %d is %q", i, ln), desc)
 				break
 			}
@@ -805,6 +814,7 @@ func c12kills(c *Ctx, r *RNG, n int) {
 		os.Remove(path + ".ack")
 	}
 	c12info(c, "kills", strconv.Itoa(n))
+	c12info(c, "kill_os_torn_last_write", strconv.Itoa(tornTail))
 	c12info(c, "kill_files_nonempty", strconv.Itoa(nonEmpty))
 	c12info(c, "kill_files_with_ack", strconv.Itoa(totalAcked))
 	c12info(c, "kill_lines_checked", strconv.Itoa(totalLines))
